@@ -22,6 +22,8 @@ def build(rng, seeded=False, grouped=True, auto=False):
     left = lsl.Var(lsl.Calc(lambda s: jnp.asarray(s) + 1.0, shared), name="left")
     right = lsl.TransientCalc(lambda s: jnp.asarray(s) - 1.0, shared, _name="right")
     nodes = [left]
+    # bare, monitored root nodes whose names merely CONTAIN the reserved `_model` prefix (a "null model", a sub-model ...): ordinary user nodes
+    nodes += [lsl.Calc(lambda s: jnp.asarray(s) * 0.5, shared, _name="null_model_log_prob"), lsl.Calc(lambda s: jnp.asarray(s) - 2.0, shared, _name="my_model_x_seed")]
     if seeded:
         noisy = lsl.Calc(lambda s, seed: s + 0.0 * jax.random.normal(seed), shared, _name="noisy", _needs_seed=True)
         nodes.append(noisy)
@@ -120,6 +122,26 @@ def case(col, rng, how, seeded, auto=False):
     if not bad and not behaves_same(new, other):
         bad = "behaviour under assignment differs"
     col.add({"sig": f"native::roundtrip::{how}", "what": f"{how}: {bad}", "input": inp} if bad else None)
+
+
+def model_from_iterable_case(col, rng):
+    """Model(nodes_and_vars: Iterable, grow=...) given a one-shot iterable (itertools.chain over the popped nodes and variables) builds the model a list gives"""
+    import itertools
+    out = {}
+    for grow in (True, False):
+        for how in ("list", "chain"):
+            m = build(np.random.default_rng(7))
+            nodes, vars_ = m.pop_nodes_and_vars()
+            objs = itertools.chain(nodes.values(), vars_.values())
+            try:
+                m2 = lsl.Model(list(objs) if how == "list" else objs, grow=grow)
+                out[(grow, how)] = (sorted(m2.nodes), sorted(m2.vars))
+            except Exception as e:
+                out[(grow, how)] = f"{type(e).__name__}: {str(e)[:100]}"
+    bad = [f"grow={g}: from a list {len(out[(g, 'list')][0])} nodes / {len(out[(g, 'list')][1])} variables, from a one-shot iterable "
+           + (f"{len(out[(g, 'chain')][0])} nodes / {len(out[(g, 'chain')][1])} variables" if not isinstance(out[(g, 'chain')], str) else out[(g, 'chain')])
+           for g in (True, False) if not isinstance(out[(g, "list")], str) and out[(g, "chain")] != out[(g, "list")]]
+    col.add(None if not bad else {"sig": "native::structure::model_from_one_shot_iterable", "what": "; ".join(bad), "input": {"constructor": "lsl.Model(itertools.chain(nodes.values(), vars.values()), grow=...)"}})
 
 
 def mutation_case(col, rng):
@@ -339,6 +361,10 @@ def bounded(tier, seed):
     for how in hows:  # the same round trips with a parameter that build_model re-parameterises automatically
         case(col, rng, how, False, auto=True)
         n += 1
+    try:
+        model_from_iterable_case(col, rng)
+    except Exception as e:
+        col.add({"sig": f"native::structure::exception::{type(e).__name__}", "what": str(e)[:200], "input": {"scenario": "Model from a one-shot iterable"}})
     mutation_case(col, rng)
     try:
         # "orders updates topologically" for the targeted update too: scripted histories of rtc.c01 on a graph with two paths of different length
